@@ -11,6 +11,7 @@ and the application must read exactly what was asserted.
 import base64
 import html.parser
 import itertools
+import os
 import random
 import urllib.parse as up
 import xml.etree.ElementTree as ET
@@ -117,6 +118,12 @@ def gen_cases(tier, seed):
             cases.append({"id": "%s-r%d-a%d-e%d-post-default-%s-pefim" % (icls, sr, sa, enc, nfmt), "sig": [icls, nfmt, "post", sr, sa, enc, "default", False, "pefim"],
                           "icls": icls, "sr": sr, "sa": sa, "enc": enc, "binding": "post", "alg": "default", "nfmt": nfmt, "classref": CLASSREFS[0], "snooa": None,
                           "lifetime": 15, "skew": 0, "authn_extra": None, "pefim": 1})
+    # entities configured with a site-specific attribute map directory
+    for icls in ("plain", "multibyte", "repeated-values"):
+        for (sr, sa, enc) in combos:
+            cases.append({"id": "%s-r%d-a%d-e%d-post-default-persistent-site-maps" % (icls, sr, sa, enc), "sig": [icls, "persistent", "post", sr, sa, enc, "default", False, "site-maps"],
+                          "icls": icls, "sr": sr, "sa": sa, "enc": enc, "binding": "post", "alg": "default", "nfmt": "persistent", "classref": CLASSREFS[0], "snooa": None,
+                          "lifetime": 15, "skew": 0, "authn_extra": None, "site_maps": 1})
     for (sr, sa, enc) in combos:
         cases.append({"id": "deferred-r%d-a%d-e%d" % (sr, sa, enc), "sig": ["deferred", sr, sa, enc], "kind": "interleaved", "mode": "deferred",
                       "sr": sr, "sa": sa, "enc": enc, "users": 4})
@@ -213,15 +220,22 @@ def run_interleaved(case, ctx):
             "evals": max(1, counters["flows"]), "sigs": [["interleaved", case["mode"], case["sr"], case["sa"], case["enc"]]]}
 
 
-def _pair(ctx, sr, sa, lifetime, skew=0):
+SITE_MAPS = os.path.join(env.VERIF, "fixtures", "attributemaps-site")
+
+
+def _pair(ctx, sr, sa, lifetime, skew=0, site_maps=False):
     def build():
         # accepted_time_diff widens what the SP accepts; it must not change what the application reads
-        spc = fed.sp_conf(want_response_signed=bool(sr), want_assertions_signed=bool(sa), top=({"accepted_time_diff": skew} if skew else None))
+        top = {"accepted_time_diff": skew} if skew else {}
+        if site_maps:
+            # the documented way to give an entity its own attribute maps (top level, as in the package's example configurations)
+            top["attribute_map_dir"] = SITE_MAPS
+        spc = fed.sp_conf(want_response_signed=bool(sr), want_assertions_signed=bool(sa), top=top or None)
         policy = {"default": {"lifetime": {"minutes": lifetime}, "attribute_restrictions": None,
                               "name_form": "urn:oasis:names:tc:SAML:2.0:attrname-format:uri", "nameid_format": NAMEID_FORMAT_PERSISTENT}}
-        idc = fed.idp_conf(policy=policy, domain="example.org")
+        idc = fed.idp_conf(policy=policy, domain="example.org", top=({"attribute_map_dir": SITE_MAPS} if site_maps else None))
         return fed.make_sp(spc, [fed.metadata_of(idc)]), fed.make_idp(idc, [fed.metadata_of(spc)])
-    return ctx.fedcache.get("pair", [sr, sa, lifetime, skew], build)
+    return ctx.fedcache.get("pair", [sr, sa, lifetime, skew, site_maps], build)
 
 
 class _Form(html.parser.HTMLParser):
@@ -241,9 +255,12 @@ def run_case(case, ctx):
     from saml2_tophat.samlp import NameIDPolicy
     if case.get("kind") == "interleaved":
         return run_interleaved(case, ctx)
-    sp, idp = _pair(ctx, case["sr"], case["sa"], case["lifetime"], case.get("skew", 0))
+    sp, idp = _pair(ctx, case["sr"], case["sa"], case["lifetime"], case.get("skew", 0), bool(case.get("site_maps")))
     rng = random.Random("%s/%s" % (ctx.seed, case["id"]))
     ident = identity_for(case["icls"], rng)
+    if case.get("site_maps"):
+        # attributes only the site's map knows, and one whose wire name the site defines itself
+        ident = dict(ident, staffId=["S-4711"], costCentre=["cc-%s" % gen.word(rng, 2, 4), "cc-2"], mail=["ann@site.example.org"])
     binding = {"post": BINDING_HTTP_POST, "redirect": BINDING_HTTP_REDIRECT, "soap": BINDING_SOAP}[case["binding"]]
     dest = {"post": fed.ACS_POST, "redirect": fed.ACS_REDIRECT, "soap": fed.ACS_POST}[case["binding"]]
     rid, req = sp.create_authn_request(fed.SSO_REDIRECT)
